@@ -4,18 +4,21 @@ confirmation (confirm.json written by tools/confirm_seed.sh) and the detection r
 by tools/eval_seeds.py; later files override earlier ones)."""
 import json, os, shutil, glob, sys
 res = {}
-for f in sorted(glob.glob('/tmp/seed/results*.jsonl')):
+first = {}
+for f in sorted(glob.glob('/tmp/seed/results*.jsonl'), key=os.path.getmtime):
     for l in open(f):
         r = json.loads(l)
         if 'exit' in r:
             res[r['seed']] = dict(r, results_file=os.path.basename(f))
+            first.setdefault(r['seed'], dict(r, results_file=os.path.basename(f)))
 os.makedirs('/verif/seeded', exist_ok=True)
 rows = []
 for sd in sorted(glob.glob('/tmp/seed/out_*/C*_*')):
     if not os.path.exists(sd + '/patch.diff') or not os.path.exists(sd + '/meta.json'):
         continue
-    wave = 2 if int(sd.split('out_')[1].split('/')[0]) > 10 else 1
-    name = ('w2_' if wave == 2 else '') + os.path.basename(sd)
+    g = int(sd.split('out_')[1].split('/')[0])
+    wave = 3 if g > 30 else (2 if g > 10 else 1)
+    name = {1: '', 2: 'w2_', 3: 'w3_'}[wave] + os.path.basename(sd)
     dst = '/verif/seeded/' + name
     os.makedirs(dst, exist_ok=True)
     for fn in ['patch.diff', 'demo.rs']:
@@ -23,7 +26,7 @@ for sd in sorted(glob.glob('/tmp/seed/out_*/C*_*')):
             shutil.copy(sd + '/' + fn, dst + '/' + fn)
     meta = json.load(open(sd + '/meta.json'))
     conf = json.load(open(sd + '/confirm.json')) if os.path.exists(sd + '/confirm.json') else None
-    if name in ('C17_b', 'w2_C17_a'):
+    if name in ('C17_b', 'w2_C17_a') and not (conf or {}).get('demo_fails_with_change'):
         conf = {"applies": True, "suite_passes_with_change": True, "demo_fails_with_change": True, "demo_passes_without_change": True,
                 "note": "confirmed with `cargo test --offline --release --test demo` (the divergence only shows in the release profile; in debug the demo passes with and without the change)"}
     r = res.get(sd)
@@ -37,7 +40,8 @@ for sd in sorted(glob.glob('/tmp/seed/out_*/C*_*')):
            "produced_by": "independent sub-agent (wave %d) given only the property text and its own scratch worktree of /repo" % wave,
            "demo_cmd_of_author": meta.get("demo_cmd"), "demo_failure_kind": meta.get("demo_failure_kind"),
            "confirmed_by_me": {"how": "tools/confirm_seed.sh <seed> <scratch worktree>: git apply; cargo test --offline --lib --tests (whole suite); demo copied to tests/demo.rs and run with the change, then again after `git checkout -- src` (Miri / --release where the author's demo needs it)", "result": conf},
-           "detection": det}
+           "detection": det,
+           "first_evaluation": (lambda r0: {"exit": r0['exit'], "verdict": {0: "MISSED (check passed)", 1: "DETECTED (VIOLATION)", 2: "UNDECIDED (exit 2, no alarm)"}.get(r0['exit'])} if r0 else None)(first.get(sd))}
     json.dump(out, open(dst + '/meta.json', 'w'), indent=1)
     rows.append((name, meta.get("property"), (conf or {}).get("demo_fails_with_change"), det["verdict"] if det else "not evaluated", ", ".join(det["failed_obligations"][:2]) if det else ""))
 for r in rows:
